@@ -190,8 +190,17 @@ class BVTheory(IntTheory):
         return a - b
 
     def mul(self, a, b, obl):
-        if self.as_const(a) is None or self.as_const(b) is None:
-            obl("mul-no-overflow", z3.And(self.fits(a, W // 2 - 1), self.fits(b, W // 2 - 1)))
+        ca, cb = self.as_const(a), self.as_const(b)
+        if ca is not None and cb is not None:
+            return self.val(ca * cb)
+        for x, c in ((a, cb), (b, ca)):
+            if c is not None:
+                k = abs(c).bit_length() + 1
+                if k >= W - 1:
+                    raise Unsupported("constant factor beyond model width")
+                obl("mul-no-overflow", self.fits(x, W - k))
+                return a * b
+        obl("mul-no-overflow", z3.And(self.fits(a, W // 2 - 1), self.fits(b, W // 2 - 1)))
         return a * b
 
     def model_int(self, m, t):
